@@ -717,7 +717,8 @@ pub fn run_c11(args: &Args) -> ! {
             // dumps reachable through the seams
             let mut reachable: BTreeSet<u64> = BTreeSet::new();
             reachable.insert(crate::dump::dump(&build(&id).an, &id).hash());
-            for p in seam_orders(w.len()) {
+            // every order of the load (not the stated subset used above for k > 4)
+            for p in permutations(w.len()).into_iter().filter(|p| p.windows(2).any(|x| x[0] > x[1])) {
                 let mut c = id.clone();
                 c.ops = vec![Op::Batch { items: items.clone(), order: Some(p), rorder: None }];
                 reachable.insert(crate::dump::dump(&build(&c).an, &c).hash());
@@ -739,7 +740,8 @@ pub fn run_c11(args: &Args) -> ! {
                 } else {
                     sampled_bad += 1;
                     all.outcome("sampled:real-hash-order differs from every seam order");
-                    raws.lock().unwrap().push(Raw { case: id.clone(), class: "unseamed:sampled".into(), detail: format!("{what}: dump hash {h:016x} is not among the {} dumps reachable through the seams", reachable.len()) });
+                    // sampled finding: reported as observed (it cannot be re-executed deterministically, so it is not minimised)
+                    all.violation(Violation { signature: "unseamed:sampled".into(), witness: id.compact().to_json(), detail: format!("{what}: dump hash {h:016x} is not among the {} dumps reachable through the load-order seam (sampled, labelled)", reachable.len()) });
                 }
             }
         }
